@@ -116,9 +116,10 @@ def dataset_spec(draw, naming=None, dense=None, raw=None, curated=None, features
                  tfeatures=None, whitening=None, amplitudes=None, clusters_file=None,
                  min_nc=2, max_nc=10, max_nt=6, max_ns=40, shanks=None, nan=False,
                  merge_ready=False, raw_backends=('flat', 'flat', 'npy', 'cbin'),
-                 full_feature_rows=None, int_templates=None):
+                 full_feature_rows=None, int_templates=None, probe_labels=False, min_nt=2,
+                 big_nt=None):
     ns = draw(st.integers(2, 12) | st.integers(2, max_ns))
-    nt = draw(st.integers(2, max_nt))
+    nt = draw(st.integers(min_nt, big_nt or max_nt))
     nc = draw(st.integers(min_nc, max_nc))
     nsw = draw(st.integers(2, 8))
     n_raw = draw(st.integers(max(8, nsw), 120))
@@ -155,6 +156,9 @@ def dataset_spec(draw, naming=None, dense=None, raw=None, curated=None, features
     sh = _opt(draw, shanks, st.booleans())
     spec['shanks'] = draw(st.lists(st.integers(0, 2), min_size=nc, max_size=nc)) if sh else None
     spec['probes_file'] = draw(st.booleans()) and not merge_ready
+    if spec['probes_file'] and probe_labels and draw(st.booleans()):
+        # probe labels with gaps / not starting at 0
+        spec['probes'] = draw(st.lists(st.sampled_from([0, 2, 5]), min_size=nc, max_size=nc))
     # templates
     is_dense = _opt(draw, dense, st.sampled_from([True, True, False]))
     t = {'dense': is_dense, 'dtype': draw(st.sampled_from(['float32', 'float64'])),
@@ -199,7 +203,8 @@ def dataset_spec(draw, naming=None, dense=None, raw=None, curated=None, features
                                for _ in range(nt)],
                        'ind_dtype': draw(st.sampled_from(['uint32', 'int32'])),
                        'dtype': draw(st.sampled_from(['float32', 'float64'])),
-                       'zero_positive': draw(st.integers(0, 4)) == 0}
+                       'zero_positive': draw(st.integers(0, 4)) == 0,
+                       'rows_dtype': draw(st.sampled_from(['int64', 'int32']))}
     else:
         spec['pcf'] = None
     tf = True if merge_ready else _opt(draw, tfeatures, _present)
@@ -216,7 +221,8 @@ def dataset_spec(draw, naming=None, dense=None, raw=None, curated=None, features
                       'ind': [list(draw(st.permutations(list(range(nt)))))[:nloc_t]
                               for _ in range(nt)],
                       'ind_dtype': draw(st.sampled_from(['uint32', 'int32'])),
-                      'dtype': draw(st.sampled_from(['float32', 'float64']))}
+                      'dtype': draw(st.sampled_from(['float32', 'float64'])),
+                      'rows_dtype': draw(st.sampled_from(['int64', 'int32']))}
     else:
         spec['tf'] = None
     spec['attrs'] = draw(st.lists(st.sampled_from(['good', 'badlen', 'twod']), max_size=3,
@@ -312,7 +318,7 @@ def build(spec, dirpath, write_params=True):
     else:
         T.shanks = None
     if spec['probes_file']:
-        T.probes = np.zeros(nc, dtype=np.int32)
+        T.probes = np.array(spec.get('probes') or [0] * nc, dtype=np.int32)
         save('channel_probe.npy', T.probes, vec=True)
     else:
         T.probes = None
@@ -376,7 +382,7 @@ def build(spec, dirpath, write_params=True):
         np.save(d / 'pc_features.npy', T.pcf)
         np.save(d / 'pc_feature_ind.npy', T.pcf_ind)
         if p['rows'] is not None:
-            T.pcf_rows = np.array(p['rows'], dtype=np.int64)
+            T.pcf_rows = np.array(p['rows'], dtype=p.get('rows_dtype', 'int64'))
             np.save(d / 'pc_feature_spike_ids.npy', _col(T.pcf_rows, col2d))
     T.tf = T.tf_ind = T.tf_rows = None
     if spec['tf']:
@@ -387,7 +393,7 @@ def build(spec, dirpath, write_params=True):
         np.save(d / 'template_features.npy', T.tf)
         np.save(d / 'template_feature_ind.npy', T.tf_ind)
         if p['rows'] is not None:
-            T.tf_rows = np.array(p['rows'], dtype=np.int64)
+            T.tf_rows = np.array(p['rows'], dtype=p.get('rows_dtype', 'int64'))
             np.save(d / 'template_feature_spike_ids.npy', _col(T.tf_rows, col2d))
     # extra spike attributes
     T.attrs = {}
